@@ -270,6 +270,17 @@ Proof.
   destruct (negb (N.land e 128 =? 0) || negb (N.land e 64 =? 0) && (1 <? N.land e 3)); eexists; reflexivity.
 Qed.
 
+Theorem dec_modkey_total data : (3 <= length data)%nat -> exists r, dec_modkey data = Ok r.
+Proof.
+  intros H. unfold dec_modkey. destruct (mid_ok data 2 1) as [body ->]; [lia|]. cbn [bind].
+  destruct (index_ok data (length data - 1)) as [last Hl]; [lia|].
+  destruct (numbers_decode body 59) as [|code [|p rest]]; try (eexists; reflexivity).
+  destruct (checked_sub1 p) as [mode|]; [|eexists; reflexivity].
+  destruct (255 <? mode); [eexists; reflexivity|]. rewrite Hl. cbn [bind].
+  destruct (if last =? 126 then tilde_key code else if code =? 1 then final_key last else None) as [[k a]|];
+    eexists; reflexivity.
+Qed.
+
 Theorem dec_osc_total data : (4 <= length data)%nat -> exists r, dec_osc data = Ok r.
 Proof.
   intros H. unfold dec_osc.
@@ -515,23 +526,48 @@ Proof.
 Qed.
 
 (* OSC 4: the palette index is the decoded second field *)
-Theorem dec_osc_palette_spec data idx c r :
-  dec_osc data = Ok r -> (r = RSome (PColor 2 idx c) \/ r = RExt (PColor 2 idx c)) ->
-  exists body a0 a1 rest, split_on 59 body = a0 :: a1 :: rest /\ number_decode a0 = Some 4 /\ number_decode a1 = Some idx.
+(* OSC colour reports: the colour name is decided by the first field (10 foreground, 11 background,
+   4 palette), the palette index is the decoded second field; nothing else is a colour report *)
+Theorem dec_osc_spec data name idx c r :
+  dec_osc data = Ok r -> (r = RSome (PColor name idx c) \/ r = RExt (PColor name idx c)) ->
+  exists last body a0 args,
+    index data (length data - 1) = Ok last /\
+    (if last =? 7 then mid data 2 1 else mid data 2 2) = Ok body /\
+    split_on 59 body = a0 :: args /\
+    ((name = 0 /\ idx = 0 /\ number_decode a0 = Some 10) \/
+     (name = 1 /\ idx = 0 /\ number_decode a0 = Some 11) \/
+     (name = 2 /\ number_decode a0 = Some 4 /\ exists a1 rest, args = a1 :: rest /\ number_decode a1 = Some idx)).
 Proof.
   unfold dec_osc. destruct (index data (length data - 1)) as [last| | |]; cbn [bind]; try discriminate.
-  destruct (if last =? 7 then mid data 2 1 else mid data 2 2) as [body| | |]; cbn [bind]; try discriminate.
+  destruct (if last =? 7 then mid data 2 1 else mid data 2 2) as [body| | |] eqn:Eb; cbn [bind]; try discriminate.
   destruct (split_on 59 body) as [|a0 args] eqn:Es; [intros H [E|E]; subst; discriminate|].
   destruct (number_decode a0) as [id|] eqn:E0; [|intros H [E|E]; subst; discriminate].
-  destruct (N.eqb_spec id 10).
-  { intros H [E|E]; subst r; split_matches H; inversion H. }
-  destruct (N.eqb_spec id 11).
-  { intros H [E|E]; subst r; split_matches H; inversion H. }
-  destruct (N.eqb_spec id 4); [|intros H [E|E]; subst; discriminate].
-  destruct args as [|a1 rest]; [intros H [E|E]; subst; discriminate|].
-  destruct (number_decode a1) as [i|] eqn:E1; [|intros H [E|E]; subst; discriminate].
-  intros H HE. exists body, a0, a1, rest. subst id. split; [exact Es|]. split; [exact E0|].
-  destruct HE as [E|E]; subst r; split_matches H; inversion H; subst; exact E1.
+  intros H HE. exists last, body, a0, args. split; [reflexivity|]. split; [exact Eb|]. split; [exact Es|].
+  destruct (N.eqb_spec id 10) as [->|_].
+  { left. destruct HE as [E|E]; subst r; split_matches H; inversion H; subst; repeat split; try reflexivity; exact E0. }
+  destruct (N.eqb_spec id 11) as [->|_].
+  { right; left. destruct HE as [E|E]; subst r; split_matches H; inversion H; subst; repeat split; try reflexivity; exact E0. }
+  destruct (N.eqb_spec id 4) as [->|_]; [|destruct HE as [E|E]; subst; discriminate].
+  right; right.
+  destruct args as [|a1 rest]; [destruct HE as [E|E]; subst; discriminate|].
+  destruct (number_decode a1) as [i|] eqn:E1; [|destruct HE as [E|E]; subst; discriminate].
+  destruct HE as [E|E]; subst r; split_matches H; inversion H; subst;
+    (split; [reflexivity|]); (split; [exact E0|]); eexists; eexists; (split; [reflexivity|exact E1]).
+Qed.
+
+(* DECRPM: mode and status are the first two parameters and are codes the library knows
+   (DecMode::from_usize / DecModeStatus::from_usize compare the WHOLE number: no truncation) *)
+Theorem dec_decmode_spec tb data m st :
+  dec_decmode tb data = Ok (RSome (PDecMode m st)) ->
+  exists body rest, mid data 3 2 = Ok body /\ numbers_decode body 59 = m :: st :: rest /\
+                    existsb (N.eqb m) (dt_modes tb) = true /\ existsb (N.eqb st) (dt_statuses tb) = true.
+Proof.
+  unfold dec_decmode. destruct (mid data 3 2) as [body| | |]; cbn [bind]; try discriminate.
+  destruct (numbers_decode body 59) as [|m' [|s' rest]] eqn:En; try discriminate.
+  - destruct (existsb (N.eqb m') (dt_modes tb)); discriminate.
+  - destruct (existsb (N.eqb m') (dt_modes tb)) eqn:Em; [|discriminate].
+    destruct (existsb (N.eqb s') (dt_statuses tb)) eqn:Est; [|discriminate].
+    intros H; inversion H; subst. exists body, rest. repeat split; assumption.
 Qed.
 
 (* kitty keyboard key: the key comes from the first number of the first field (1 when there is none),
@@ -694,4 +730,27 @@ Proof.
   intros Hb Hn Hl Hg. unfold dec_mouse. rewrite Hb. cbn [bind]. rewrite Hn.
   destruct (checked_sub1 c); [|reflexivity]. destruct (checked_sub1 r); [|reflexivity].
   rewrite Hl. cbn [bind]. cbv zeta. rewrite mouse_guard, Hg. reflexivity.
+Qed.
+
+(* legacy keys with a modifier parameter (CSI code ; m final): the modifier set is the parameter minus
+   one — a zero parameter or a set above 255 makes the sequence unrecognised, nothing is masked away —
+   and the key is named by the final byte (code 1) or, for `~`, by the code *)
+Theorem dec_modkey_spec data kind arg mode :
+  dec_modkey data = Ok (RSome (PKey kind arg mode)) ->
+  exists body code rest last,
+    mid data 2 1 = Ok body /\ numbers_decode body 59 = code :: (mode + 1) :: rest /\ mode <= 255 /\
+    index data (length data - 1) = Ok last /\
+    (if last =? 126 then tilde_key code else if code =? 1 then final_key last else None) = Some (kind, arg).
+Proof.
+  unfold dec_modkey. destruct (mid data 2 1) as [body| | |]; cbn [bind]; try discriminate.
+  destruct (numbers_decode body 59) as [|code [|p rest]] eqn:En; try discriminate.
+  destruct (checked_sub1 p) as [m|] eqn:Ep; [|discriminate].
+  destruct (N.ltb_spec 255 m) as [|Hm]; [discriminate|].
+  destruct (index data (length data - 1)) as [last| | |]; cbn [bind]; try discriminate.
+  destruct (if last =? 126 then tilde_key code else if code =? 1 then final_key last else None) as [[k a]|] eqn:Ek;
+    [|discriminate].
+  intros H. apply checked_sub1_spec in Ep. subst p.
+  assert (Hland : N.land m 511 = m).
+  { change 511 with (N.ones 9). rewrite N.land_ones. apply N.mod_small. change (2 ^ 9) with 512. lia. }
+  rewrite Hland in H. inversion H; subst. exists body, code, rest, last. repeat split; assumption || reflexivity.
 Qed.
